@@ -78,6 +78,11 @@ pub fn containers(thorough: bool) -> Vec<Value> {
         json!({"a": 1.0}),
         json!({"a": 1, "b": 2}),
         json!({"b": 2, "a": 1}),
+        // member names that look like query text: names of compared objects are matched as they are
+        json!({"'a'": 1}),
+        json!({"\"a\"": 1}),
+        json!({"'a'": 1, "a": 2}),
+        json!([{"''": 1}]),
     ];
     if thorough {
         v.extend([
